@@ -199,7 +199,8 @@ CHECKS = {
               "chained normalisation, zero_seg0_end_planes, max_segment_num_to_process, subset sensitivities on/off, legal number of "
               "subsets, prior on/off, sensitivities computed at set-up / read from files written by an earlier object / forced to 1) and "
               "2..16 operations on ONE objective-function object: value, gradient, gradient+sensitivity, sensitivity, Hessian x vector, "
-              "approximate Hessian x vector (subset / full / penalised), set_up again, set_num_subsets + set_up.  Every answer is compared "
+              "approximate Hessian x vector (subset / full / penalised), set_up again, set_num_subsets + set_up, and model changes on the same "
+              "object (other normalisation, additive term on/off, zero_seg0_end_planes, max_segment_num_to_process) + set_up.  Every answer is compared "
               "with the expression evaluated in double precision on the explicit system matrix, bitwise with the answer of a fresh object "
               "whose FIRST request it is, and bitwise with earlier answers to the same request.  omp part: value, gradients, sensitivity "
               "and Hessian products in a drawn order with 2..16 simulated threads vs one thread.  Non-trivial = >= 2 operations (seq) or "
